@@ -54,11 +54,35 @@ func selChain(e ast.Expr) string {
 var txRelevant = []string{"txLock.", "rwLock.", "active.", "hasReadLock.", "hasWriteLock.", "buffer.", "storage.",
 	"releaseReadLock", "releaseWriteLock"}
 
-func txActions(fd *ast.FuncDecl) []string {
-	recv := ""
-	if fd.Recv != nil && len(fd.Recv.List) > 0 && len(fd.Recv.List[0].Names) > 0 {
-		recv = fd.Recv.List[0].Names[0].Name
+// txHelpers: the other methods of the package by "Type.name": a call of an unexported helper on
+// the same receiver (a preamble moved into a method of its own) is read through, its actions
+// appear where the call stands
+var txHelpers map[string]*ast.FuncDecl
+
+func recvOf(fd *ast.FuncDecl) (name, typ string) {
+	if fd.Recv == nil || len(fd.Recv.List) == 0 {
+		return "", ""
 	}
+	if len(fd.Recv.List[0].Names) > 0 {
+		name = fd.Recv.List[0].Names[0].Name
+	}
+	t := fd.Recv.List[0].Type
+	if st, ok := t.(*ast.StarExpr); ok {
+		t = st.X
+	}
+	if id, ok := t.(*ast.Ident); ok {
+		typ = id.Name
+	}
+	return
+}
+
+func txActions(fd *ast.FuncDecl) []string {
+	recv, recvType := recvOf(fd)
+	anchored := map[string]bool{}
+	for _, f := range txFns {
+		anchored[f.recv+"."+f.name] = true
+	}
+	inlining := map[string]bool{}
 	var acts []string
 	// roCond classifies a condition on the transaction mode: (true, false) for "read-only"
 	// (mode == ReadOnly, readOnly, tx.readOnly, x.IsReadOnly()), (true, true) for its negation
@@ -173,11 +197,24 @@ func txActions(fd *ast.FuncDecl) []string {
 				}
 				if recv != "" && strings.HasPrefix(ch, recv+".") {
 					rest := ch[len(recv)+1:]
+					matched := false
 					for _, p := range txRelevant {
 						if strings.HasPrefix(rest, p) {
 							acts = append(acts, rest)
+							matched = true
 							break
 						}
+					}
+					// an unexported helper method of the same type: read through it
+					key := recvType + "." + rest
+					if h := txHelpers[key]; !matched && h != nil && h.Body != nil && !strings.Contains(rest, ".") &&
+						!anchored[key] && !ast.IsExported(rest) && !inlining[key] {
+						inlining[key] = true
+						saved := recv
+						recv, _ = recvOf(h)
+						walk(h.Body)
+						recv = saved
+						delete(inlining, key)
 					}
 				}
 				if sx, ok := x.Fun.(*ast.SelectorExpr); ok {
@@ -257,6 +294,7 @@ func genTxFacts() (string, string) {
 			}
 		}
 	}
+	txHelpers = decls
 	for _, f := range txFns {
 		fd := decls[f.recv+"."+f.name]
 		if fd == nil {
